@@ -2,9 +2,11 @@ package c01
 
 import (
 	"context"
+	"errors"
 	"testing"
 	"time"
 
+	"oras.land/oras-go/v2/content/file"
 	"pgregory.net/rapid"
 
 	"verif/harness/copyx"
@@ -43,6 +45,22 @@ func genCase(t *rapid.T) copyx.Case {
 		root = c.MapTo
 	}
 	c.Pre = copyx.GenPre(t, d, d.Reach(root, true), root)
+	if c.DstKind == "file" && rapid.IntRange(0, 3).Draw(t, "clash") == 0 {
+		// a name the graph uses is already taken in the destination by other content
+		pre := map[int]bool{}
+		for _, p := range c.Pre {
+			pre[p] = true
+		}
+		var named []int
+		for _, id := range gen.SortedKeys(d.Reach(root, true)) {
+			if d.Nodes[id].Spec.Title != "" && !pre[id] && !d.Nodes[id].Spec.Absent {
+				named = append(named, id)
+			}
+		}
+		if len(named) > 0 {
+			c.Clash = []int{rapid.SampledFrom(named).Draw(t, "clashNode")}
+		}
+	}
 	return c
 }
 
@@ -157,6 +175,19 @@ func runCase(c copyx.Case) (res vt.Result, fail *vt.Fail) {
 		res.Classes = append(res.Classes, k)
 	}
 
+	if len(c.Clash) > 0 {
+		// the destination cannot hold the graph (a name is taken by other content):
+		// the copy may be refused with duplicate-name, but if it reports success
+		// everything must be there all the same
+		res.Classes = append(res.Classes, "destination-name-taken-by-other-content")
+		if out.Err != nil {
+			if !errors.Is(out.Err, file.ErrDuplicateName) {
+				return res, vt.Failf("C01/name-clash-wrong-error", "%s into a file store where the name of node %d is taken failed with %v, expected duplicate-name (or success with everything copied)", c.API, c.Clash[0], out.Err)
+			}
+			res.Classes = append(res.Classes, "copy-refused-duplicate-name")
+			return res, nil
+		}
+	}
 	if out.Err != nil {
 		return res, vt.Failf("C01/fault-free-copy-failed", "%s %s->%s returned an error on a well-formed graph without faults: %v", c.API, c.SrcKind, c.DstKind, out.Err)
 	}
